@@ -151,6 +151,8 @@ pub fn scan_stream(ts: TokenStream, module: &str, scan: &mut Scan, per_module: &
 }
 
 fn documented_source(l: &Layout) -> String {
+    // missing_docs only looks at items reachable from outside: always plain `pub` here
+    let l = &Layout { vis: 0, ..l.clone() };
     // every other declaration carries its field doc comments *after* the bit/bits attribute
     let after = l.fields.len() % 2 == 0;
     let ro = RenderOpts { docs: true, vis_pub: true, enum_derives: "#[derive(Debug, PartialEq, Eq)]".into(), docs_after_attr: after, struct_derives: String::new() };
@@ -191,7 +193,14 @@ pub fn corpus_c18(tier: Tier, seed: u64) -> Vec<Layout> {
 
 pub fn run(rc: &RunCtx) -> Outcome {
     let layouts = corpus_c18(rc.tier, rc.seed);
-    let enums: Vec<EnumDecl> = crate::corpus::enum_corpus(Tier::Quick, rc.seed).into_iter().map(|(_, e)| e).step_by(rc.tier.pick(6, 1)).collect();
+    let step = rc.tier.pick(6usize, 1usize);
+    let enums: Vec<EnumDecl> = crate::corpus::enum_corpus(Tier::Quick, rc.seed)
+        .into_iter()
+        .map(|(_, e)| e)
+        .enumerate()
+        .filter(|(k, e)| k % step == 0 || e.exhaustive == Exh::True)
+        .map(|(_, e)| e)
+        .collect();
     let ro_doc = RenderOpts { docs: true, vis_pub: true, enum_derives: "#[derive(Debug, PartialEq, Eq)]".into(), docs_after_attr: false, struct_derives: String::new() };
     let mut files: Vec<(String, String)> = Vec::new();
     let mut sources: BTreeMap<String, String> = BTreeMap::new();
